@@ -1,4 +1,57 @@
 import Holpy.C16.Model
+import Holpy.C16.Gen
 import Holpy.C16.Proofs
+/-
+C16 — property theorems.  Rows are omega.py factoids `[c₁,…,cₙ,c₀]` meaning `0 ≤ Σ cᵢ·xᵢ₋₁ + c₀`.
+`Sat rows v` : the integer assignment `v` satisfies every row.  `evalRowQ r v` : value of a row
+under a rational assignment.
+-/
 namespace Holpy.C16
+
+/-- A SAT answer whose witness passes `checkWitness` really satisfies every constraint
+(the harness sends every `solve_matrix` / branch-and-bound witness through this checker). -/
+theorem checkWitness_sound (rows : List Row) (v : List Int) (h : checkWitness rows v = true) :
+    Sat rows (assignOf v) := by
+  intro r hr
+  have := List.all_eq_true.mp h r hr
+  rw [decide_eq_true_eq, dotFrom_eq] at this
+  exact this
+
+example : checkWitness [[2, 3, 6], [-1, -4, 7]] [-9, 4] = true ∧ Sat [[2, 3, 6], [-1, -4, 7]] (assignOf [-9, 4]) :=
+  ⟨by decide, checkWitness_sound _ _ (by decide)⟩
+
+/-- A rational witness `xᵢ = pᵢ/q` (simplex assignment with denominators cleared) that passes
+`checkWitnessQ` satisfies every constraint over ℚ. -/
+theorem checkWitnessQ_sound (rows : List Row) (p : List Int) (q : Int) (h : checkWitnessQ rows p q = true) :
+    ∀ r ∈ rows, 0 ≤ evalRowQ r (fun i => (p.getD i 0 : ℚ) / q) := by
+  simp only [checkWitnessQ, Bool.and_eq_true, decide_eq_true_eq] at h
+  intro r hr
+  have hq : (0 : ℚ) < q := by exact_mod_cast h.1
+  have h2 := List.all_eq_true.mp h.2 r hr
+  rw [decide_eq_true_eq] at h2
+  have hs := dotFromQ_spec r p q 0 0 (fun i => (p.getD i 0 : ℚ) / q) (ne_of_gt hq) (fun k => by simp)
+  have h3 : (0 : ℚ) ≤ (dotFromQ r p q 0 : ℚ) := by exact_mod_cast h2
+  rw [hs] at h3
+  simp only [Int.cast_zero, zero_add] at h3
+  exact nonneg_of_mul_nonneg_right h3 hq
+
+example : checkWitnessQ [[2, -1], [-2, 1]] [1] 2 = true := by decide
+
+/-- A Farkas certificate that passes `checkFarkas` (non-negative multipliers whose combination of the
+rows is `0 ≤ c` with `c < 0`) proves that the system has no rational — hence no real, no integer —
+solution.  The harness turns every simplex "unsatisfiable" explanation into such multipliers. -/
+theorem checkFarkas_sound (rows : List Row) (coeffs : List Int) (h : checkFarkas rows coeffs = true) :
+    ¬ ∃ v : Nat → ℚ, ∀ r ∈ rows, 0 ≤ evalRowQ r v := by
+  rintro ⟨v, hv⟩
+  cases rows with
+  | nil => simp [checkFarkas] at h
+  | cons r0 rs =>
+    simp only [checkFarkas, Bool.and_eq_true, decide_eq_true_eq, List.all_eq_true] at h
+    obtain ⟨⟨⟨⟨_, _⟩, hk⟩, hl⟩, hf⟩ := h
+    have h1 := combRows_nonneg v coeffs (r0 :: rs) r0.length hl hk hv
+    have h2 := isFalseRow_evalG_neg (combRows coeffs (r0 :: rs) r0.length) 0 v hf
+    linarith
+
+example : checkFarkas [[1, 1, -1], [-1, 0, 0], [0, -2, 1]] [2, 2, 1] = true := by decide
+
 end Holpy.C16
